@@ -115,6 +115,10 @@ def havoc_mut_args(eng, st, name, args, call):
       "core::str::<impl str>::as_bytes", "std::string::String::as_bytes")
 def p_identity(eng, st, name, args, site, depth, call):
     a = args[0]
+    if name.endswith(("Into>::into", "Into::into", "From>::from", "From::from")):
+        impl = eng.workspace_from(st, a, call)
+        if impl is not None and depth < eng.max_depth and impl.path not in st.stack:
+            return eng.run_body(st, impl, [eng.val(st, a)], depth + 1, site)
     if name in ("std::option::Option::as_ref", "std::option::Option::as_mut", "std::result::Result::as_ref",
                 "std::option::Option::as_deref") or "deref_mut" in name or name.endswith("iter_mut"):
         return one(st, a)      # keep the reference so that writes through it land on the place
@@ -134,6 +138,9 @@ def p_clone(eng, st, name, args, site, depth, call):
 @prim_re(r"^<.* as std::convert::(From|Into)>::(from|into)$")
 def p_from(eng, st, name, args, site, depth, call):
     # lossless conversions compare equal to their argument; keep the target for enums built by From
+    impl = eng.workspace_from(st, args[0], call)
+    if impl is not None and depth < eng.max_depth and impl.path not in st.stack:
+        return eng.run_body(st, impl, [eng.val(st, args[0])], depth + 1, site)
     v = eng.val(st, args[0])
     if name.startswith("<cw20::Balance as") or name.startswith("<cw20::balance::Balance as"):
         return one(st, ("call", name, (v,)))
@@ -1006,6 +1013,14 @@ def p_is_empty(eng, st, name, args, site, depth, call):
 def p_next(eng, st, name, args, site, depth, call):
     a = args[0]
     it = eng.val(st, a)
+    if it[0] == "list" and a[0] == "ref":
+        # an iterator over a sequence whose elements are all known ([x, y].into_iter(), a Vec built by pushes): exact
+        if it[1]:
+            eng.write_loc(st, a[1], a[2], ("list", it[1][1:]))
+            return one(st, SOME(it[1][0]))
+        return one(st, NONE)
+    if it[0] == "default":
+        return one(st, NONE)        # iterating the Default of a collection: empty
     n = st.fresh()
     res = ("calli", "next", (it,), n)
     if a[0] == "ref":
@@ -1132,7 +1147,8 @@ def _iter_loop(eng, st, name, args, site, depth, call):
                     for j, (n, v) in enumerate(cur[2]):
                         from .engine import HD
                         leaves += eng.loop_leaves(st, up[1], "up%d.%s" % (i, n), tuple(up[2]) + (HD({"f": j, "n": n}),), 1)
-                elif not (isinstance(cur, tuple) and cur and cur[0] == "ref"):
+                elif not (isinstance(cur, tuple) and cur and cur[0] in ("ref", "path", "const")):
+                    # (storage handles - a Path / an accessor const - are never reassigned by an iteration)
                     leaves.append((up[1], tuple(up[2]), "up%d" % i))
     if leaves:
         # trial iteration on a scratch copy: only the captured places an iteration actually changes become loop variables
@@ -1145,6 +1161,7 @@ def _iter_loop(eng, st, name, args, site, depth, call):
         telem = ("vfield", ("calli", "next", (("loopvar", tlk, "iter", 0),), t0.fresh()), "Some", "0")
         tacc = ("loopvar", tlk, "acc", 0)
         saved_paths, saved_steps = eng._paths, eng._steps
+        saved_blind = set(eng.blind)
         try:
             for s2, r in eng.call_value(t0, clos, ([tacc, telem] if has_acc else [telem]), site, depth):
                 for loc, path, nm in leaves:
@@ -1152,6 +1169,7 @@ def _iter_loop(eng, st, name, args, site, depth, call):
                         changed.add(nm)
         finally:
             eng._paths = saved_paths
+            eng.blind = saved_blind          # the trial is not part of the summary
         leaves = [x for x in leaves if x[2] in changed]
     vals0 = {"iter": it}
     if has_acc:
